@@ -8,7 +8,7 @@ import Mathlib.Tactic.SplitIfs
     The generated function returns the list of `graph.nodes[v]['equation']` attributes (`Option Eqn`, every entry
     `some`); the hand model returns the list of their left-hand sides. -/
 
-namespace Cellml.Tie
+namespace Cellml.Tie.PGraph
 open C09 Cellml.Gen
 
 theorem hasEq_eq_isSome (eqs : List Eqn) (v : Node) : hasEq eqs v = (eqnOf eqs v).isSome := by
@@ -98,4 +98,4 @@ theorem getEquationsFor_tie (key : Node → String) (eqs : List Eqn) (vars : Lis
           · exact ⟨a, ha, Or.inr (by cases recurse <;> simpa using h)⟩
     · simp [hall, errClass, Except.map, errName]
 
-end Cellml.Tie
+end Cellml.Tie.PGraph
